@@ -20,6 +20,14 @@ CHECKS = {
               "probability against the exact rational product of the model, and the sequence against a second run and "
               "against runs in other processes with different hash seeds. Exploration, not proof."),
         design='4/C01'),
+    'C02': dict(
+        technique="Hypothesis property-based testing + exhaustive small-scope enumeration of tie patterns; model-side product-set oracle (multiset equality) and a per-pop frontier invariant on the real heap",
+        text=("Generated rulesets x flags: the multiset of pre-terminals popped from the real queue must equal the model's product "
+              "set (nothing missing, nothing twice); after every pop no pre-terminal may be in emitted+heap more often than its "
+              "structure occurs; small cases are expanded and the Counter of guesses compared with the model language. An "
+              "exhaustive sweep covers all single-structure grids of 1-3 variables x 1-3 groups over tie-producing probability "
+              "pools, with repeated types and duplicated structures. Exploration; the grid sub-part is exhaustive for its finite scope."),
+        design='4/C02'),
 }
 
 NOT_YET = "check not built yet in this round (design exists in DESIGN.md section 4); not claimed until it runs"
